@@ -135,7 +135,7 @@ def run(R: Run):
             sx = sy = 1
         elif kind == "near":
             k = rng.choice([1, 1, 2, 3])
-            sx, sy = (k + rng.choice([1, -1]) * (2.0**-rng.choice([9, 10, 11, 12]) + rng.choice([0, 0, 2.0**-40, -(2.0**-40)]))
+            sx, sy = (k + rng.choice([1, -1]) * (2.0**-rng.choice([7, 8, 9, 10, 11, 12, 14]) + rng.choice([0, 0, 2.0**-40, -(2.0**-40)]))
                       for _ in range(2))
             tx, ty = k * tx, k * ty
         elif kind == "int":
@@ -155,7 +155,7 @@ def run(R: Run):
     for _ in range(R.pick(4000, 40000)):
         A, kind = rnd_aff()
         ttol = rng.choice([0.05, 0.05, 2**-5, 2**-4, 0.26, 0.5])
-        stol = rng.choice([1e-3, 1e-3, 2**-10, 2**-11, 2**-9])
+        stol = rng.choice([1e-3, 1e-3, 2**-10, 2**-11, 2**-9, 1e-2, 1e-2, 2**-7, 1e-4, 1e-6])
         R.corr(f"c10 isst {aff_s(A)}", lambda: bool_s(M.is_affine_st(A)), sig="isst|" + kind)
         exact_snap = all(abs(v) >= 1 - stol or Fraction(v).numerator in (1, -1) or abs(v) < stol for v in (A.a, A.e))
         if exact_snap:
@@ -231,6 +231,7 @@ def run(R: Run):
     stats = {"paste1": 0, "pasteK": 0, "nopaste": 0}
     for i in range(n_pairs):
         big = rng.random() < 0.04
+        stol_c, ttol_c = None, None
         if big:
             sshape, dshape = (rng.randint(3, 6), rng.randint(500, 900)), (rng.randint(3, 6), rng.randint(500, 900))
         else:
@@ -242,6 +243,20 @@ def run(R: Run):
         elif fam < 0.8:
             S = Affine.identity() if rng.random() < 0.5 else gen_src_affine(rng)
             Mx, kind = gen_M_patched(rng, sshape, dshape)
+        elif fam < 0.9:  # caller supplied tolerances, scales straddling k ± stol, shifts straddling ttol
+            stol_c = rng.choice([1e-2, 1e-3, 1e-4, 1e-6])
+            ttol_c = rng.choice([0.05, 1e-2, 1e-3, 0.2])
+            k = rng.choice([1, 1, 2, 2, 3, 4])
+            dlt = stol_c * rng.choice([0.3, 0.9, 0.99, 1.01, 1.1, 2.5, 6.0]) * rng.choice([1, -1])
+            dlt2 = dlt if rng.random() < 0.6 else stol_c * rng.choice([0.3, 1.5]) * rng.choice([1, -1])
+            if not big:
+                sshape, dshape = (rng.randint(8, 60), rng.randint(8, 60)), (rng.randint(4, 30), rng.randint(4, 30))
+            sg = (rng.choice([1, 1, -1]), rng.choice([1, 1, -1]))
+            rt = ttol_c * rng.choice([0, 0.5, 0.9, 1.1, 3]) * rng.choice([1, -1])
+            S = Affine.identity() if rng.random() < 0.5 else gen_src_affine(rng)
+            Mx = Affine((k + dlt) * sg[0], 0, k * (rng.randint(-dshape[1], sshape[1] // k) + rt) + (k * dshape[1] if sg[0] < 0 else 0),
+                        0, (k + dlt2) * sg[1], k * (rng.randint(-dshape[0], sshape[0] // k) + rt / 2) + (k * dshape[0] if sg[1] < 0 else 0))
+            kind = f"tol-{stol_c:g}"
         else:  # arbitrary doubles: realistic resolution, residues on both sides of the tolerance
             resn = rng.choice([30, 10, 0.00025, 25, 1 / 3])
             S = Affine.translation(rng.uniform(-1e5, 1e5), rng.uniform(-1e5, 1e5)) * Affine.scale(resn, -resn)
@@ -252,12 +267,13 @@ def run(R: Run):
                 Mx = Mx * Affine.scale(1 + rng.choice([-1, 1]) * rng.uniform(1e-5, 9e-4))
             kind = "float"
         D = S * Mx
-        ttol = rng.choice([0.05, 0.05, 0.05, 2**-5, 0.26, 0.45])
+        ttol = rng.choice([0.05, 0.05, 0.05, 2**-5, 0.26, 0.45]) if ttol_c is None else ttol_c
+        stol = 1e-3 if stol_c is None else stol_c
         src_g, dst_g = gb(sshape, S), gb(dshape, D)
         case = {"fn": "compute_reproject_roi", "src_shape": sshape, "dst_shape": dshape, "src_affine": list(S)[:6],
-                "dst_affine": list(D)[:6], "ttol": ttol, "crs": CRS0}
+                "dst_affine": list(D)[:6], "ttol": ttol, "stol": stol, "crs": CRS0}
         try:
-            r = O.compute_reproject_roi(src_g, dst_g, ttol=ttol)
+            r = O.compute_reproject_roi(src_g, dst_g, ttol=ttol, stol=stol)
         except Exception as e:  # pylint: disable=broad-except
             R.oracle(False, "plan-raises", case, f"compute_reproject_roi raised {type(e).__name__}: {e}", sig="plan|raises")
             continue
@@ -267,16 +283,18 @@ def run(R: Run):
         (ys, xs), (yd, xd) = r.roi_src, r.roi_dst
         # --- paste-ability only within tolerances (on the exact transform of the two grids)
         a, b, c, d, e, f = A6
-        stq, ttq = Fraction(1e-3), Fraction(ttol)
+        stq, ttq = Fraction(stol), Fraction(ttol)
         fr = lambda v: abs(v - round(v))  # noqa: E731
-        slack = Fraction(1, 10**9)
+        slack = Fraction(1, 10**9) + stq / 10**6
         if r.paste_ok:
             good = (abs(b) < Fraction(1e-10) + slack and abs(d) < Fraction(1e-10) + slack and abs(abs(a) / rs - 1) < stq + slack
                     and abs(abs(e) / rs - 1) < stq + slack and fr(c / rs) < ttq + slack and fr(f / rs) < ttq + slack)
             R.oracle(good, "paste-ok-outside-tolerance", case,
                      f"paste_ok with dst→src transform {[float(v) for v in A6]} read_shrink {rs}", sig="plan|paste-sound")
         else:
-            k = max(1, round(min(abs(a), abs(e))))
+            # completeness is judged for the read-shrink the planner reports (its own 1e-3 rule): for stol > 1e-3 a scale in
+            # (k - stol, k - 1e-3) is read at k-1 and therefore (soundly) not pasteable
+            k = rs
             clearly_ok = (b == 0 and d == 0 and abs(abs(a) / k - 1) < stq - slack and abs(abs(e) / k - 1) < stq - slack
                           and fr(c / k) < ttq - slack and fr(f / k) < ttq - slack and fr(min(abs(a), abs(e))) < stq - slack)
             R.oracle(not clearly_ok, "paste-rejected-within-tolerance", case,
@@ -286,6 +304,9 @@ def run(R: Run):
             stats["nopaste"] += 1
             R.count("plan|nopaste|" + kind)
             continue
+        R.oracle((ys.stop - ys.start, xs.stop - xs.start) == (rs * (yd.stop - yd.start), rs * (xd.stop - xd.start)),
+                 "paste-src-shape-not-shrink-times-dst", case, f"paste_ok read_shrink={rs} roi_src={r.roi_src} roi_dst={r.roi_dst}",
+                 sig="plan|paste-shape")
         if rs > 1:
             # --- planned source region = overview region scaled by k, same shape as the destination region
             stats["pasteK"] += 1
@@ -300,7 +321,8 @@ def run(R: Run):
         if not ok:
             continue
         drift, has_res = drift_of(A6, rs, dshape)
-        key = "paste-scale-drift-differs-from-warp" if (has_res and drift >= Fraction(1, 2)) else "paste-differs-from-warp"
+        pure = (A6[1] == 0 and A6[3] == 0 and abs(abs(A6[0]) - 1) < stq and abs(abs(A6[4]) - 1) < stq)
+        key = "paste-scale-drift-differs-from-warp" if (has_res and pure and drift >= Fraction(1, 2)) else "paste-differs-from-warp"
         # coordinates that sit on a pixel edge in doubles are decided by GDAL's epsilon, not by the property
         xx, yy = c03.centres(dshape)
         px, py = c03.apply_np(A6, xx, yy)
@@ -331,6 +353,65 @@ def run(R: Run):
             src = make_src(rng, sshape, "int16")
             R.corr(f"c10 paste {dshape[0]} {dshape[1]} {bool_s(A.e < 0)} {bool_s(A.a < 0)} {ns(ys)} {ns(xs)} {ns(yd)} {ns(xd)} "
                    f"-999 {img_s(src)}", lambda: img_s(do_paste(src, dshape, r, A, -999)), sig="paste-op|" + kind)
+
+    # --- grids in CRSs WITHOUT an EPSG code (same or different), after arbitrary earlier calls on the CRS objects
+    from odc.geo.crs import CRS
+    from pyproj import CRS as PCRS
+    from pyproj import Transformer
+
+    for i in range(R.pick(90, 900)):
+        a = rng.choice(c03.NO_EPSG)
+        b = a if rng.random() < 0.3 else rng.choice(c03.NO_EPSG)
+        really_same = PCRS.from_user_input(a) == PCRS.from_user_input(b)
+        sshape, dshape = (rng.randint(6, 40), rng.randint(6, 40)), (rng.randint(6, 40), rng.randint(6, 40))
+        res_m = rng.choice([500, 1000, 463.3127165])
+        lon, lat = rng.uniform(5, 25), rng.uniform(40, 58)
+        x0, y0 = Transformer.from_crs("EPSG:4326", PCRS.from_user_input(a), always_xy=True).transform(lon, lat)
+        x0, y0 = round(x0 / res_m) * res_m, round(y0 / res_m) * res_m
+        S = Affine.translation(x0, y0) * Affine.scale(res_m, -res_m)
+        if really_same:
+            x1, y1 = x0, y0
+        else:  # numerically compatible grid in the other projection: same pixel size, whole-pixel offsets
+            x1, y1 = Transformer.from_crs("EPSG:4326", PCRS.from_user_input(b), always_xy=True).transform(lon, lat)
+            x1, y1 = round(x1 / res_m) * res_m, round(y1 / res_m) * res_m
+            if rng.random() < 0.5:
+                x1, y1 = x0, y0  # literally the same affine numbers, different projection
+        D = Affine.translation(x1 + res_m * rng.randint(-6, 6), y1 + res_m * rng.randint(-6, 6)) * Affine.scale(res_m, -res_m)
+        ca, cb = CRS(a), CRS(b)
+        hist = c03.prior_history(rng, ca, cb)
+        src_g, dst_g = gb(sshape, S, ca), gb(dshape, D, cb)
+        case = {"fn": "compute_reproject_roi", "src_shape": sshape, "dst_shape": dshape, "src_affine": list(S)[:6],
+                "dst_affine": list(D)[:6], "src_crs": a, "dst_crs": b, "history": hist, "ttol": 0.05, "dtype": "int16"}
+        try:
+            r = O.compute_reproject_roi(src_g, dst_g)
+        except Exception as ex:  # pylint: disable=broad-except
+            R.oracle(False, "plan-raises", case, f"{type(ex).__name__}: {ex}", sig="plan|raises")
+            continue
+        tag = ("same" if really_same else "diff") + ("|hist" if hist else "")
+        R.oracle(really_same or not r.paste_ok, "paste-ok-for-different-crs", case,
+                 f"paste_ok for grids in different CRSs ({c03.crs_tag(a)} vs {c03.crs_tag(b)})", sig=f"noepsg|{tag}|paste-sound")
+        R.oracle((r.transform.linear is not None) == really_same, "crs-sameness-misjudged", case,
+                 f"pyproj says same CRS: {really_same}; planned as same-CRS pair: {r.transform.linear is not None}",
+                 sig=f"noepsg|{tag}|sameness")
+        if not (r.paste_ok and r.read_shrink == 1):
+            continue
+        (ys, xs), (yd, xd) = r.roi_src, r.roi_dst
+        if (ys.stop - ys.start, xs.stop - xs.start) != (yd.stop - yd.start, xd.stop - xd.start):
+            R.oracle(False, "paste-roi-shape-mismatch", case, f"roi_src={r.roi_src} roi_dst={r.roi_dst}", sig=f"noepsg|{tag}|shapes")
+            continue
+        for dt in (DTYPES[i % len(DTYPES)], "int16"):
+            nodata = NODATA[dt]
+            src = make_src(rng, sshape, dt)
+            try:
+                w = rio_reproject(src, np.full(dshape, nodata, dtype=dt), src_g, dst_g, "nearest", dst_nodata=nodata)
+                pimg = do_paste(src, dshape, r, r.transform.back.linear, nodata)
+            except Exception as ex:  # pylint: disable=broad-except
+                R.oracle(False, "paste-or-warp-raises", {**case, "dtype": dt}, f"{type(ex).__name__}: {ex}", sig="plan|raises")
+                continue
+            neq = ~((pimg == w) | ((pimg != pimg) & (w != w)))
+            R.oracle(not neq.any(), "paste-differs-from-warp", {**case, "dtype": dt},
+                     f"{int(neq.sum())} of {neq.size} pixels differ between the pasted image and the GDAL nearest warp; "
+                     f"roi_src={r.roi_src} roi_dst={r.roi_dst}", sig=f"noepsg|{tag}|{dt}")
 
     # --- wide images with a scale residue within stol: pasted image != warp (known finding, own key)
     for (n, sc) in [(600, 1.0009), (rng.randint(700, 1500), 1 + rng.choice([-1, 1]) * rng.uniform(7e-4, 9.5e-4))]:
@@ -374,10 +455,17 @@ def replay(R: Run, rec) -> int:
         return 1
     if case.get("fn") != "compute_reproject_roi":
         return 0
+    from odc.geo.crs import CRS
+
     ss, ds = tuple(case["src_shape"]), tuple(case["dst_shape"])
     S, D = Affine(*case["src_affine"]), Affine(*case["dst_affine"])
-    src_g, dst_g = GeoBox(wh_(ss[1], ss[0]), S, case["crs"]), GeoBox(wh_(ds[1], ds[0]), D, case["crs"])
-    r = O.compute_reproject_roi(src_g, dst_g, ttol=case.get("ttol", 0.05))
+    ca, cb = CRS(case.get("src_crs", case.get("crs", CRS0))), CRS(case.get("dst_crs", case.get("crs", CRS0)))
+    c03.apply_history(case.get("history", []), ca, cb)
+    src_g, dst_g = GeoBox(wh_(ss[1], ss[0]), S, ca), GeoBox(wh_(ds[1], ds[0]), D, cb)
+    r = O.compute_reproject_roi(src_g, dst_g, ttol=case.get("ttol", 0.05), stol=case.get("stol", 1e-3))
+    if key in ("paste-ok-for-different-crs", "crs-sameness-misjudged"):
+        print("paste_ok", r.paste_ok, "planned as same-CRS pair:", r.transform.linear is not None)
+        return 1 if (r.paste_ok or r.transform.linear is not None) else 0
     print("roi_src", r.roi_src, "roi_dst", r.roi_dst, "paste_ok", r.paste_ok, "read_shrink", r.read_shrink)
     if not (r.paste_ok and r.read_shrink == 1):
         return 1 if key in ("paste-ok-outside-tolerance", "shrink-roi-not-scaled") else 0
